@@ -258,6 +258,10 @@ impl UnixStr {
         let slf_ptr = self.as_ptr();
         let other_ptr = other.as_ptr();
         let other_len = other.len();
+        if other_len == 0 {
+            // Nothing to compare, and nothing that may be read
+            return 0;
+        }
         loop {
             unsafe {
                 let a_val = slf_ptr.add(it).read();
